@@ -1,1 +1,36 @@
-Require Import Gengo.Base.Str Gengo.Model.Universe.
+(* C20 — type predicates are sound with respect to Go semantics.  IsComparable (v2) asks the
+   retained go/types type and has no logic of gengo's own to model: it is decided by the
+   correspondence run against go/types' Comparable only. *)
+Require Import Gengo.Base.Str Gengo.Model.Universe Gengo.Proofs.UniverseProofs Gengo.Proofs.PredProofs.
+
+(* reported assignable => no pointer, map, slice, channel, function or interface anywhere inside *)
+Theorem C20_assignable_sound : forall u fuel o, is_assignable fuel u o = Some true -> ~ has_ref u o.
+Proof. exact is_assignable_sound. Qed.
+Print Assumptions C20_assignable_sound.
+
+(* reported primitive exactly when a builtin scalar or a defined type whose underlying type is one *)
+Theorem C20_primitive_exact : forall u o, is_primitive u o = true <-> primitive u o.
+Proof. exact is_primitive_iff. Qed.
+Print Assumptions C20_primitive_exact.
+
+(* reported anonymous struct => the empty struct literal, possibly behind defined types *)
+Theorem C20_anonymous_struct_sound : forall u fuel o, is_anonymous_struct fuel u o = Some true -> anon_struct u o.
+Proof. exact is_anonymous_struct_sound. Qed.
+Print Assumptions C20_anonymous_struct_sound.
+
+Theorem C20_named_struct_not_anonymous : forall u f o e,
+  nlookup o (objs u) = Some e -> e_kind e = s "Struct" -> snd (e_name e) <> s "struct{}" ->
+  is_anonymous_struct (S f) u o = Some false.
+Proof. exact named_struct_not_anonymous. Qed.
+Print Assumptions C20_named_struct_not_anonymous.
+
+Theorem C20_empty_struct_literal : forall u f o e,
+  nlookup o (objs u) = Some e -> e_kind e = s "Struct" -> snd (e_name e) = s "struct{}" ->
+  is_anonymous_struct (S f) u o = Some true.
+Proof. exact empty_struct_literal_anonymous. Qed.
+Print Assumptions C20_empty_struct_literal.
+
+Example C20_example :
+  is_assignable 5 ex_u (s "p", s "A") = Some true /\ is_assignable 5 ex_u (s "p", s "B") = Some false /\
+  has_ref ex_u (s "p", s "B").
+Proof. destruct ex_assignable. auto using ex_has_ref. Qed.
